@@ -340,6 +340,13 @@ pub fn run(ctx: &Ctx) -> Result<(), String> {
                     for bs in [64u8, 33] {
                         cases.push((v, k, warm, bs));
                     }
+                    // small batch sizes: the burst exceeds what one call of the event loop handles
+                    // (16 batches), so the worker re-arms its socket and must keep serving afterwards
+                    if k <= 65 {
+                        for bs in [1u8, 2] {
+                            cases.push((v, k, warm, bs));
+                        }
+                    }
                 }
             }
         }
